@@ -45,6 +45,8 @@ def squeeze(b):
 
 def fmt_lib(chunks, writer, args):
     from pico8.lua import lua as plua
+    from vlib import prelude
+    prelude.lua()
     l = plua.Lua.from_lines(list(chunks), version=8)
     cls = {'fmt': plua.LuaFormatterWriter, 'astecho': plua.LuaASTEchoWriter, 'astmin': plua.LuaMinifyWriter}[writer]
     out = b''.join(l.to_lines(writer_cls=cls, writer_args=args))
